@@ -30,7 +30,7 @@ HOSTILE = ['', ' ', 'x', '0', '-1', '1e5', '1E-400', '.5', '-.', '5.', '1' * 400
            'content-language', 'en', 'de-*', '*', '\x00', '\ud800', 'a' * 3000, '1' * 5000 + '-01-01', '2' * 4301 + '-W01', '3' * 4400 + '-12']
 HUGE = __import__('re').compile(r'[0-9]{4301,}')      # beyond CPython's int-conversion limit: outside the model
 STATE_ATTRS = ['type', 'min', 'max', 'value', 'dir', 'lang', 'name', 'placeholder', 'http-equiv', 'content', 'TYPE', 'Dir']
-ODD = [None, 5, 2.5, b'bytes', b'', ('a', 'b'), ['a', ['b', 'c']], [1, None], True, [], ['x', b'y']]
+ODD = [None, 5, 2.5, b'bytes', b'', b'\xff', b'a\xc3', [b'\xfe\xff', 'c1'], 'c1 \x85x', ('a', 'b'), ['a', ['b', 'c']], [1, None], True, [], ['x', b'y']]
 FREE_ATTRS = ['title', 'data-x', 'id', 'class', 'rel', 'href2']
 ALL_PSEUDO = [':link', ':any-link', ':checked', ':default', ':indeterminate', ':disabled', ':enabled', ':required', ':optional',
               ':placeholder-shown', ':read-write', ':read-only', ':in-range', ':out-of-range', ':dir(ltr)', ':dir(rtl)', ':defined',
